@@ -257,6 +257,72 @@ def config_restore_rule(chk, src, rule):
                               "the object (and every state derived from it later) keeps the temporary settings - e.g. a second-order scheme silently continues as a first-order one")
     return n
 
+
+# ------------------------------------------------------------------------------------------ step doubling (abstract run of the adaptive wrapper)
+def step_doubling_rule(chk, src, rule):
+    from ..syminterp import SymInterp, Sym, OpenSym, Blob
+    deco = src.func(MPS, "adaptive_tdvp")
+    for script_name, script in (("reject, then accept until done", [1.0] + [1e-4] * 60), ("accept at once", [1e-4] * 60), ("two rejections", [1.0, 1.0] + [1e-4] * 60)):
+        calls, dists = [], []
+        script_it = iter(script)
+
+        class St(Sym):
+            def __init__(self, name, t):
+                super().__init__(name)
+                self.t = t
+                self.mp_norm = 1.0
+                self.evolve_config = Sym("cfg", guess_dt=None)
+
+            def distance(self, o):
+                dists.append((self._name, o._name))
+                return next(script_it)
+
+        def fun(state, mpo, dt):
+            calls.append((state._name, dt))
+            return St(f"fun({state._name},{dt:.6g})", state.t + dt)
+        cfg = Sym("config", adaptive=True, guess_dt=0.4, adaptive_rtol=1e-3, check_valid_dt=lambda t: None)
+        cfg.__dict__["copy"] = lambda: Sym("config-copy", adaptive=True, guess_dt=0.4, adaptive_rtol=1e-3, check_valid_dt=lambda t: None)
+        start = St("psi0", 0.0)
+        start.evolve_config = cfg
+        it = SymInterp(src, None, {"wraps": lambda f: (lambda g: g), "min_abs": lambda a, b: a if abs(a) < abs(b) else b, "logger": Blob("logger"),
+                                   "np": OpenSym("np", allclose=lambda a, b: abs(a - b) < 1e-9), "EvolveConfig": None})
+        wrapped = it.call_function(deco, [fun])
+        T = 1.0
+        try:
+            out = wrapped(start, "mpo", T)
+            err = None
+        except StopIteration:
+            out, err = None, "the wrapper kept asking for trial steps after the scripted sequence ended (evolved time never reaches the target)"
+        probs = [err] if err else []
+        # group calls in trials of three
+        cur, t_acc = "psi0", 0.0
+        k = 0
+        for trial in range(min(len(dists), len(script))):
+            c = calls[3 * trial:3 * trial + 3]
+            if len(c) < 3:
+                probs.append(f"trial {trial}: {len(c)} propagations")
+                break
+            dt = c[2][1]
+            h1 = f"fun({cur},{dt / 2:.6g})"
+            h2 = f"fun({h1},{dt / 2:.6g})"
+            full = f"fun({cur},{dt:.6g})"
+            if [x[0] for x in c] != [cur, h1, cur] or abs(c[0][1] - dt / 2) > 1e-12 or abs(c[1][1] - dt / 2) > 1e-12:
+                probs.append(f"trial {trial}: propagations {c}, expected two half steps from the current state and one full step from it")
+                break
+            if set(dists[trial]) != {full, h2}:
+                probs.append(f"trial {trial}: error estimated between {dists[trial]}, expected the full step and the two half steps")
+                break
+            accepted = script[trial] < 1e-2
+            if accepted:
+                cur, t_acc = h2, t_acc + dt
+        if not probs and (out is None or out._name != cur or abs(t_acc - T) > 1e-9):
+            probs.append(f"returned {getattr(out, '_name', out)} after accepted steps summing to {t_acc}; expected the last accepted two-half-step state at t = {T}")
+        if not probs and start.evolve_config.guess_dt != 0.4:
+            probs.append("the guess_dt of the input state's configuration was changed")
+        chk.ob(rule, f"adaptive_tdvp [{script_name}]", not probs, deco.where, probs[:2] or f"{len(dists)} trials, accepted time {t_acc}", "step doubling from the last accepted state; rejected trials discarded; accepted steps add up to the target",
+               line=deco.node.lineno, detail="adaptive TDVP: " + (probs[0] if probs else "") + " - a rejected trial that leaks into the state, a full step taken instead of the two half steps, or a wrong time "
+               "bookkeeping changes the propagated time without any error")
+
 # ------------------------------------------------------------------------------------------ solver sibling
 def prologue_env(fi, imag, krylov):
     """symbolic values of evolve_dt / coef after the prologue for (imaginary-time?, krylov-solver?)"""
@@ -525,6 +591,8 @@ def run(chk):
     adaptive_reject_rule(chk, src, "adaptive-reject")
     chk.rule("config-restore", "temporarily modified configuration objects are saved as copies before and restored after", 1)
     config_restore_rule(chk, src, "config-restore")
+    chk.rule("step-doubling", "abstract run of the adaptive TDVP wrapper with scripted error estimates", 3)
+    step_doubling_rule(chk, src, "step-doubling")
     chk.rule("relative-error-homogeneous", "adaptive error estimates divide norms of the same kind (both with or both without the scalar prefactor)", 3)
     relative_error_rule(chk, src, "relative-error-homogeneous")
     rk_usage_rule(chk, src, "rk-usage")
